@@ -44,7 +44,7 @@ ASSUMPTIONS = [
 REACH = {t: ["versions_all", "socket_seen", "socket_late", "socket_absent", "serial", "second_reset_fallback",
              "recovered_data_fault", "clean_failure_on_rst_fault", "second_connect_ok", "newer_than_known",
              "double_fault", "rstack_doubled_in_one_read", "socket_late_queued", "startup_reset_again_on_same_connection",
-             "command_racing_a_reset"] for t in ("quick", "thorough")}
+             "command_racing_a_reset", "callback_in_flight_at_reset", "callback_in_flight_frame_numbers_8"] for t in ("quick", "thorough")}
 SHARD_TIMEOUT = {"quick": 900, "thorough": 3600}
 VERSIONS = list(range(4, 15)) + [15, 16, 32]
 KINDS = ["drop", "corrupt", "dup", "dup1"]  # dup: copy in a read of its own; dup1: both copies in one read
@@ -79,7 +79,7 @@ def shards(tier, seed):
     return out
 
 
-def run_case(V, mode, vector, seed):
+def run_case(V, mode, vector, seed, inflight=None):
     trace: list = []
     info = {"steps": [], "hang": False, "second": None, "version": None, "handler": None}
 
@@ -137,10 +137,20 @@ def run_case(V, mode, vector, seed):
                     await ez.getEui64()
                     await ez.read_counters()
                     step = "reset"
-                    trace.append(("mark", loop.time(), "second_reset"))
                     # another task (a keep-alive, an application request) issues a command while the reset is
                     # in progress: whatever happens to it, it must not reach the freshly reset NCP ahead of the
                     # version negotiation
+                    if inflight is not None:
+                        # the NCP has a callback on the wire when the host's RST is written: the host reads that
+                        # DATA frame (whose frame number is `inflight`) after its RST and before the RSTACK
+                        for _ in range(8):
+                            if ws.ash.frm_tx == inflight:
+                                break
+                            await ez.nop()
+                        if ws.ash.frm_tx == inflight and not ws.ash.failed:
+                            ws.ncp.callback("stackStatusHandler", [0x90])
+                            info["inflight"] = inflight
+                    trace.append(("mark", loop.time(), "second_reset"))
                     rst = asyncio.ensure_future(ez.reset())
                     await asyncio.sleep(0)
                     racer = asyncio.ensure_future(ez.nop())
@@ -348,11 +358,15 @@ def run_shard(desc) -> Acc:
     if mode != "serial":
         vecs = vecs[: 1 + NF * len(KINDS)] if desc["tier"] == "thorough" else vecs[:1] + vecs[1:1 + NF * len(KINDS):4]
     acc.reach["version:%d" % V] += 1
-    for vec in vecs:
+    for vi, vec in enumerate(vecs):
         acc.case()
-        trace, info = run_case(V, mode, vec, desc["seed"])
+        inflight = (vi + V) % 9 if (vi + V) % 9 < 8 else None
+        trace, info = run_case(V, mode, vec, desc["seed"], inflight)
         bad, facts = judge(V, mode, vec, trace, info)
-        case = {"version": V, "mode": mode, "vector": vec, "seed": desc["seed"]}
+        case = {"version": V, "mode": mode, "vector": vec, "seed": desc["seed"], "inflight": inflight}
+        if info.get("inflight") is not None:
+            acc.hit("callback_in_flight_at_reset")
+            acc.reach["inflight_frm:%d" % info["inflight"]] += 1
         for key, msg in bad[:3]:
             acc.violation(key, msg, case, pretty(trace)[:80] + [repr(s) for s in info["steps"]])
         for f in facts:
@@ -380,11 +394,16 @@ def post_merge(reach, tier, events=None):
         reach["versions_all"] = len(vs)
     for k in vs:
         del reach[k]
+    fs = [k for k in reach if k.startswith("inflight_frm:")]
+    if len(fs) == 8:
+        reach["callback_in_flight_frame_numbers_8"] = 8
+    for k in fs:
+        del reach[k]
 
 
 def replay(case) -> Acc:
     acc = Acc()
-    trace, info = run_case(case["version"], case["mode"], case["vector"], case.get("seed", 0))
+    trace, info = run_case(case["version"], case["mode"], case["vector"], case.get("seed", 0), case.get("inflight"))
     bad, facts = judge(case["version"], case["mode"], case["vector"], trace, info)
     print("\n".join(pretty(trace)))
     print(info["steps"], info.get("second"))
